@@ -76,9 +76,10 @@ PLAN = {
     },
     "C07": {
         "level": "fault_enumeration",
-        "rule": "histories of 2-6 injector lifetimes that evaluate the same fake!(..., times: N) expression (one helper per site), N and call counts redrawn per lifetime, lifetimes ending by drop, verification panic or injected panic; each lifetime is judged by the C06 model on its own calls alone; distinct = (site, per-lifetime (N, matching, rejected, exit)) tuples",
-        "assumptions": [A_N],
-        "parts": [n_part("N-reused-call-sites", "C07", 1600, 160000, selftest=64, extra_args=["--family", "count"])],
+        "rule": "histories of 2-6 injector lifetimes that evaluate the same fake!(..., times: N) expression (one helper per site), N and call counts redrawn per lifetime, lifetimes ending by drop, verification panic or injected panic; each lifetime is judged by the C06 model on its own calls alone; plus, under the deterministic scheduler, 2-4 threads whose lifetimes all go through one shared site (N, N-1 or N+1 calls each): every verdict must be about that lifetime's own calls whatever the interleaving; distinct = (site, per-lifetime (N, matching, rejected, exit)) tuples / interleavings",
+        "assumptions": [A_N, A_T],
+        "parts": [n_part("N-reused-call-sites", "C07", 1600, 160000, selftest=64, extra_args=["--family", "count"]),
+                  t_part("T-shared-site-across-threads", "sharedsite", "C07", 8000, 1000000)],
     },
     "C08": {
         "level": "other",
@@ -89,10 +90,10 @@ PLAN = {
     },
     "C09": {
         "level": "fault_enumeration",
-        "rule": "31 function types (arity, one parameter type, return type, reference mutability, raw-pointer mutability, unsafety, ABI C/system/Rust, one lifetime-only twin); all 961 ordered (target type, replacement type) pairs, 24 per scenario (41 scenarios enumerate them; further scenarios repeat them through other macro forms: func! two-argument / fn(..) / func_info:, closure!, fake!), plus null target/fake, checked-unchecked mixes, async wrong/right output type; refusal = panic with the right message before any OS event and unchanged entry; distinct = pair blocks",
+        "rule": "35 function types (arity, one parameter type, return type, reference mutability, raw-pointer mutability, unsafety, ABI C/system/Rust, one lifetime-only twin, two pairs of distinct types with the same last path segment); all 1225 ordered (target type, replacement type) pairs, 24 per scenario (52 scenarios enumerate them; further scenarios repeat them through other macro forms: func! two-argument / fn(..) / func_info:, closure!, fake!), plus null target/fake, checked-unchecked mixes, async wrong/right output type; refusal = panic with the right message before any OS event and unchanged entry; distinct = pair blocks",
         "assumptions": [A_N, "type_name renders structurally different fn-pointer types differently (a rustc property)"],
         "exhaustive": True,
-        "parts": [n_part("N-signature-pairs", "C09", 164, 16400, selftest=41, extra_args=["--family", "sigs"])],
+        "parts": [n_part("N-signature-pairs", "C09", 208, 20800, selftest=52, extra_args=["--family", "sigs"])],
     },
     "C14": {
         "level": "fault_enumeration",
